@@ -342,6 +342,42 @@ func (w *WalkEnv) install() {
 			return Sym{K: rk, T: retype(cc)}, true
 		}
 	}
+	// --- addressability: Addr / UnsafeAddr panic on a value that is not addressable; the code's own
+	// CanAddr() test (true edge) establishes it for that value
+	in.Models["(reflect.Value).CanAddr"] = func(in *Interp, site ssa.Instruction, cc *ssa.CallCommon, a []AVal) (AVal, bool) {
+		key := kindKey(keyOf(a[0]))
+		w.site(site, "CanAddr")
+		n := w.nextN["canaddr:"+key]
+		w.nextN["canaddr:"+key] = n + 1
+		if in.Choose(fmt.Sprintf("canaddr(%s)#%d", key, n), 2) == 1 {
+			w.set("addressable:"+key, 1)
+			return cstBool(true), true
+		}
+		return cstBool(false), true
+	}
+	for _, m := range []string{"Addr", "UnsafeAddr"} {
+		m := m
+		in.Models["(reflect.Value)."+m] = func(in *Interp, site ssa.Instruction, cc *ssa.CallCommon, a []AVal) (AVal, bool) {
+			key := kindKey(keyOf(a[0]))
+			s := w.site(site, m)
+			if _, ok := w.kset["addressable:"+key]; !ok {
+				s.Panics["not known to be addressable"] = true
+				in.Panics(site, "reflect %s on a value that was not found addressable (no CanAddr test on this path)", m)
+			}
+			r := Sym{K: keyOf(a[0]) + "." + m + "()", T: cc.Signature().Results().At(0).Type()}
+			if m == "Addr" {
+				w.set(r.K, kmask(reflect.Ptr))
+			}
+			return r, true
+		}
+	}
+	for _, m := range []string{"Pointer", "UnsafePointer"} {
+		m := m
+		in.Models["(reflect.Value)."+m] = func(in *Interp, site ssa.Instruction, cc *ssa.CallCommon, a []AVal) (AVal, bool) {
+			w.need(site, keyOf(a[0]), m, kmask(reflect.Chan, reflect.Func, reflect.Map, reflect.Ptr, reflect.Slice, reflect.UnsafePointer))
+			return Sym{K: keyOf(a[0]) + "." + m + "()", T: cc.Signature().Results().At(0).Type()}, true
+		}
+	}
 	// --- reflect.Type methods (interface calls)
 	for _, m := range []string{"Kind", "Key", "Elem", "NumField", "Field", "Name", "String", "PkgPath", "Len", "Bits"} {
 		m := m
